@@ -43,8 +43,46 @@ type Case struct {
 	Grid    bool       `json:"grid"`  // place the vertices on a coarse grid (rings share latitudes / longitudes exactly)
 	Near    bool       `json:"near"`  // two sibling rings get vertices a single 1e-7 degree step apart
 	Place   string     `json:"place"` // "" | "grid" | "near" | "tiny" | "concave" (grid / near: also the two flags above)
+	Ids     IdSpec     `json:"ids"`   // node / way id assignment
 	Vers    [][]bool   `json:"vers"`  // relation history: vers[v][i] = member way i is reversed at relation version v+1
 	Doc     *DocSpec   `json:"doc"`   // the relation is observed inside a document of several relations sharing ways
+}
+
+// IdSpec: "" ids of the placement | zero: vertex Z is node 0 | span: ids sym-Z | neg: all negative | i31 / i32: ids around
+// 2^31 / 2^32 with vertex Z exactly on the power of two
+type IdSpec struct {
+	Mode string `json:"mode"`
+	Z    int    `json:"z"`
+}
+
+func (c *Case) remapIDs(l *layout) {
+	for s := range l.id {
+		d := int64(s - c.Ids.Z)
+		switch c.Ids.Mode {
+		case "zero":
+			if s == c.Ids.Z {
+				l.id[s] = 0
+			}
+		case "span":
+			l.id[s] = osm.NodeID(d)
+		case "neg":
+			l.id[s] = osm.NodeID(-(1000 + int64(s)))
+		case "i31":
+			l.id[s] = osm.NodeID((int64(1) << 31) + d)
+		case "i32":
+			l.id[s] = osm.NodeID((int64(1) << 32) + d)
+		}
+	}
+}
+
+func (c *Case) wayID(i int) osm.WayID {
+	switch c.Ids.Mode {
+	case "i31":
+		return osm.WayID((int64(1) << 31) - 2 + int64(i))
+	case "i32":
+		return osm.WayID((int64(1) << 32) - 2 + int64(i))
+	}
+	return osm.WayID(500 + i)
 }
 
 // DocSpec: a document of 2-3 relations sharing ways; the case observes relation K (1-based) of Rels.
@@ -720,7 +758,7 @@ func build(c *Case, l *layout, src string, mask []bool) *osm.OSM {
 	}
 	used := map[int]bool{}
 	for i, m := range c.Members {
-		w := &osm.Way{ID: osm.WayID(500 + i), Version: 1, Visible: true, Timestamp: t0}
+		w := &osm.Way{ID: c.wayID(i), Version: 1, Visible: true, Timestamp: t0}
 		for _, s := range m.Nodes {
 			wn := osm.WayNode{ID: l.id[s]}
 			if src == "waynodes" {
@@ -805,6 +843,7 @@ func doCase(c *Case, seed uint64, line []byte) Got {
 	h := fnv.New64a()
 	h.Write(line)
 	l := place(c, seed, h.Sum64())
+	c.remapIDs(l)
 	if os.Getenv("C16_DUMP") != "" { // debugging aid for replays: where every symbol was placed
 		for s, pt := range l.pt {
 			fmt.Fprintf(os.Stderr, "sym %d id %d lon %.17g lat %.17g\n", s, l.id[s], pt[0], pt[1])
@@ -866,7 +905,7 @@ func doVersions(c *Case, l *layout, got *Got) {
 	var hist osm.Ways                          // all way versions
 	current := make([][]*osm.Way, len(c.Vers)) // way versions current at each relation version
 	for i, m := range c.Members {
-		id := osm.WayID(500 + i)
+		id := c.wayID(i)
 		var cur *osm.Way
 		for v := range c.Vers {
 			rev := c.Vers[v][i]
@@ -891,7 +930,7 @@ func doVersions(c *Case, l *layout, got *Got) {
 			rel.Tags = append(rel.Tags, osm.Tag{Key: "note", Value: fmt.Sprintf("edit %d", v)})
 		}
 		for i, m := range c.Members {
-			rel.Members = append(rel.Members, osm.Member{Type: osm.TypeWay, Ref: int64(500 + i), Role: m.Role})
+			rel.Members = append(rel.Members, osm.Member{Type: osm.TypeWay, Ref: int64(c.wayID(i)), Role: m.Role})
 		}
 		rels = append(rels, rel)
 	}
